@@ -437,7 +437,12 @@ fn generate(cli: &Cli) -> Vec<Case> {
                                 "", "x", "_", "__", "a_", "_b", "en_", "aé", "é", "€", "€_€", "😀", "d😀", "\u{0}", "\u{0}\u{0}_\u{0}", "en_US_POSIX", "zh_hant_tw_x_y", "EN", "eN_uS", " en", "en us", "en-US", "%s", "{}",
                                 "{locale}", "../en", &long, "ru_кириллица_длинная", "日本語のロケール名", "aaaaaaaaaaaaaaaé", "aaaaaaaaaaaaaaé", "\u{feff}en", "e\u{301}n_us", "ß_SS", "İ_i",
                             ];
-                            for loc in locales {
+                            // a locale made of separators only, as long as the frame allows: every `_` is a
+                            // fall-back step of the lookup; with tables that know neither it nor the default
+                            // locale the lookup ends in the application's "cannot find" warning
+                            let many = "_".repeat((max_frame as usize).saturating_sub(120).min(32_000));
+                            let many_parts = "ab_".repeat((max_frame as usize).saturating_sub(120).min(32_000) / 3);
+                            for (loc, only_de) in locales.iter().map(|l| (*l, false)).chain([(many.as_str(), false), (many.as_str(), true), (many_parts.as_str(), true), ("xx_yy", true)]) {
                                 let mut v = apply(&sc, pos, vec![Out::Pkt(client_information(loc))], false);
                                 v.adapters.discovery = Outcome::Ok(vec![]);
                                 v.adapters.discovery_latency = Duration::ZERO;
@@ -449,7 +454,12 @@ fn generate(cli: &Cli) -> Vec<Case> {
                                         ("de".into(), vec![("disconnect_no_target".into(), "{\"text\":\"kein Ziel\"}".into())]),
                                     ],
                                 };
-                                out.push(Case { sc: v, state: format!("{}/encrypted-client-information", shape.name), class: "hostile-locale-rendered", detail: format!("{:?}", loc.chars().take(12).collect::<String>()), must_err: false, refuse_after: None, max_frame });
+                                if only_de
+                                    && let LocalizeScript::Table { messages, .. } = &mut v.adapters.localize
+                                {
+                                    messages.retain(|(l, _)| l == "de");
+                                }
+                                out.push(Case { sc: v, state: format!("{}/encrypted-client-information", shape.name), class: "hostile-locale-rendered", detail: format!("{:?}{}{}", loc.chars().take(12).collect::<String>(), if loc.len() > 12 { format!("…({} bytes)", loc.len()) } else { String::new() }, if only_de { "/no-table-for-the-default-locale" } else { "" }), must_err: false, refuse_after: None, max_frame });
                             }
                         }
                     }
